@@ -264,7 +264,7 @@ func main() {
 	model := flag.String("model", "", "")
 	out := flag.String("out", "-", "")
 	allk := flag.Bool("allk", false, "fail conn.Write at every k for every response program; all two-way cuts of short streams")
-	only := flag.String("only", "", "run only one scenario: resp, conn, ws, nbconn, synth")
+	only := flag.String("only", "", "run only one scenario: resp, conn, ws, nbconn, engine, synth")
 	flag.Parse()
 	logging.SetLevel(logging.LevelNone)
 	debug.SetGCPercent(400) // the cases allocate (and drop) many large never-recycled buffers
@@ -272,7 +272,8 @@ func main() {
 	rep.Rule = "resp: handler programs (headers, WriteHeader, up to 5 Writes of 0 / small / 32K / 60-66 KiB / 64 KiB +-4 / +-200 / >70 KiB, Flush anywhere, explicit / absent / late Content-Length, trailers, HTTP/1.0 and 1.1) x allocator (in place, always move) x conn.Write failing from or only at the k-th write, every run compared with the Coq model; " +
 		"conn: 1-3 pipelined requests (no body / Content-Length / chunked with trailers, bodies 0..64K+) cut into random segments or at every position, corrupted byte, close after any segment, body size and read limits, handler reads all / part / nothing, allocator in place / always move / move on growth with 0-1024 bytes slack; " +
 		"ws: server (real Upgrade, blocking mode) and client role, direct and send-queue writes, messages of 0,1,125,126,127,65535,65536 +- and larger, fragmented, compressed, over the limit, invalid frames, bad deflate data, pings/close, segments cut anywhere, close mid-message, write failures, slow connection with close while frames are queued; " +
-		"nbconn: real nbio engine over loopback TCP, writes far beyond the socket buffer, slow reader, close with a backlog; synth: random event traces with violations for the two checkers; non-trivial = the run performed allocator events (synth: the trace contains a violation)"
+		"nbconn: real nbio engine over loopback TCP, writes far beyond the socket buffer (Write and Writev), peer reads all / little, close with a backlog; " +
+		"engine: real nbhttp engine (non-blocking / blocking IO mode, allocator also as ReadBufferPool) with std clients: pipelined POST echo and generated responses in segments, WebSocket upgrade, echo of empty / threshold-sized / fragmented / compressed messages, pings, close by either side, half a request left behind; synth: random event traces with violations for the two checkers; non-trivial = the run performed allocator events (synth: the trace contains a violation)"
 	h := &H{rep: rep, seed: *seed}
 	if *model != "" {
 		h.model = hx.StartModel(*model)
@@ -305,6 +306,16 @@ func main() {
 		}
 		for it := 0; it < k && !rep.TooMany(); it++ {
 			nbconnCase(h, r, it)
+		}
+	}
+	r = rand.New(rand.NewSource(*seed + 5000003))
+	if want("engine") {
+		k := *n / 8
+		if k < 3 {
+			k = 3
+		}
+		for it := 0; it < k && !rep.TooMany(); it++ {
+			engineCase(h, r, it)
 		}
 	}
 	r = rand.New(rand.NewSource(*seed + 4000003))
